@@ -129,9 +129,14 @@ def run(ctx):
         scov = storelib.new_cov()
         agg = storelib.random_runs(ctx, spool, scov, [dict(seed=ctx.seed * 1000 + 900 + i, n=(180 if ctx.quick() else 500), caps=([3, 3] if i % 2 else []), cache=0,
                                                             pcrash=0.02, pflush=0.35, pfail=0.5, wal=False, maxrows=(4 if i % 2 else 10))
-                                                       for i in range(3 if ctx.quick() else 10)])
+                                                       for i in range(3 if ctx.quick() else 10)] +
+                                   # and under caches so small that statements fill them with dirty pages: the refusal must reach
+                                   # the statement (which is then abandoned), never be swallowed with the page handed out uncached
+                                   [dict(seed=ctx.seed * 1000 + 950 + i, n=(200 if ctx.quick() else 500), caps=[], cache=k, pcrash=0, pflush=0, wal=False,
+                                         maxrows=30, bias="grow") for i, k in enumerate([6, 8] if ctx.quick() else [5, 6, 7, 8, 10])])
         cov["store_level_write_faults"] = dict(runs=agg["runs"], statements=agg["statements"], flushes=agg["flushes"],
-                                               flushes_failed=agg.get("flushes_failed", 0), clean_pages_evicted_after=agg.get("evicted_after_failed_flush", 0))
+                                               flushes_failed=agg.get("flushes_failed", 0), clean_pages_evicted_after=agg.get("evicted_after_failed_flush", 0),
+                                               cache_full_statements=agg.get("cachefull_statements_restarted", 0))
         if not agg.get("flushes_failed") and not ctx.violations:
             raise vlib.Undecided("vacuous: no flush with a failing page write was run")
     finally:
